@@ -40,6 +40,7 @@ func init() {
     leaf u32 { type uint32; }
     leaf u64 { type uint64; }
     leaf dec { type decimal64 { fraction-digits 2; } }
+    leaf dec9 { type decimal64 { fraction-digits 9; } }
     leaf b { type boolean; }
     leaf s { type string; }
     leaf bin { type binary; }
